@@ -27,12 +27,13 @@ static size_t term(const int *a)
     switch (a[0]) {
     case 1: return SIZE_MAX - (size_t)a[1];
     case 2: return SIZE_MAX / ESZ + (size_t)(long)a[1];
+    case 3: return (size_t)1 << a[1];
     default: return (size_t)a[1];
     }
 }
 static void term_json(jb_t *b, const int *a)
 {
-    jb_printf(b, "\"t\":{\"k\":\"%s\",\"n\":%d}", a[0] == 1 ? "max" : a[0] == 2 ? "maxdiv" : "n", a[1]);
+    jb_printf(b, "\"t\":{\"k\":\"%s\",\"n\":%d}", a[0] == 1 ? "max" : a[0] == 2 ? "maxdiv" : a[0] == 3 ? "pow" : "n", a[1]);
 }
 static long slot_of(const void *e)
 {
@@ -146,6 +147,7 @@ static int drv_enum(vop_t *ops, int max)
         for (n = 0; n <= MAXN; n++) { ADD(0, 0, n, f); ADD(1, 0, n, f); }
         for (n = 0; n <= 1; n++) { ADD(0, 1, n, f); ADD(1, 1, n, f); }
         for (n = -1; n <= (ESZ > 1 ? 1 : 0); n++) { ADD(0, 2, n, f); ADD(1, 2, n, f); }   /* SIZE_MAX/1 + 1 is not a size_t */
+        for (n = 61; n <= 63; n++) { ADD(0, 3, n, f); ADD(1, 3, n, f); }                   /* 2^61..2^63: byte counts that wrap to small values */
         ADD(2, f, 0, 0);
     }
     ADD(3, 0, 0, 0);
@@ -153,7 +155,9 @@ static int drv_enum(vop_t *ops, int max)
     ADD(4, 99, 0, 0);
     ADD(5, 0, 0, 0);
     for (n = 0; n <= MAXN + 1; n++) ADD(6, 0, n, 0);
-    ADD(6, 1, 0, 0); ADD(6, 1, 1, 0); ADD(6, 2, 0, 0);
+    ADD(6, 1, 0, 0); ADD(6, 1, 1, 0);
+    for (n = -1; n <= (ESZ > 1 ? 1 : 0); n++) ADD(6, 2, n, 0);
+    for (n = 61; n <= 63; n++) ADD(6, 3, n, 0);        /* indexes whose byte offset wraps back into the buffer */
     if (SWAP) ADD(7, 0, 0, 0);
     ADD(8, 0, 0, 0);
     return no;
